@@ -79,6 +79,10 @@ def run_case(case, col=None):
         except tp.TealSyntaxError as e:
             out.append(("unparsable", "emitted TEAL does not parse: %s\n%s" % (e, diff.short_teal(teal))))
             continue
+        iss = diff.unassemblable(teal, cfg["version"], recipe.get("mode", "app"))
+        if iss is not None:
+            out.append(("unassemblable:%s" % iss.kind, "v%d: the emitted program cannot be assembled: %s\n--- TEAL ---\n%s" % (cfg["version"], iss, diff.short_teal(teal, 60))))
+            continue
         for ci, (c, er) in enumerate(zip(ctxs, evals)):
             if er is None:
                 continue
